@@ -107,7 +107,7 @@ struct TermCase {
 }
 
 fn term_case(_t: Tier) -> impl Strategy<Value = TermCase> {
-    proptest::collection::vec((-1i8..=1, prop_oneof![2 => 0u32..=12, 2 => 0u32..=10_000, 1 => 0u32..=1_000_000], 0usize..10), 0..=6).prop_map(|terms| TermCase { terms })
+    proptest::collection::vec((-1i8..=1, prop_oneof![2 => 0u32..=12, 2 => 0u32..=10_000, 1 => 0u32..=1_000_000, 1 => (0u32..=1000).prop_map(|k| k * 1000)], 0usize..10), 0..=6).prop_map(|terms| TermCase { terms })
 }
 
 fn check_terms(c: &TermCase, obs: &mut Obs) -> CheckResult {
@@ -180,7 +180,7 @@ struct RtCase {
 }
 
 fn rt_case(_t: Tier) -> impl Strategy<Value = RtCase> {
-    (0usize..4, prop_oneof![3 => 1i64..=9999, 2 => 1900i64..=2100], 1u32..=12, 1u32..=31, prop_oneof![1 => Just(0i64), 4 => 0i64..86400], prop_oneof![1 => Just(0i64), 3 => 0i64..1_000_000_000], prop_oneof![8 => Just(0i64), 1 => 1i64..200_000_000_000_000, 1 => -200_000_000_000_000i64..0]).prop_map(|(u, y, mo, d, sod, sub_ns, edge)| RtCase { u, y, mo, d, sod, sub_ns, edge })
+    (0usize..4, prop_oneof![6 => 1i64..=9999, 4 => 1900i64..=2100, 1 => -400i64..=0, 1 => 10_000i64..=20_000], 1u32..=12, 1u32..=31, prop_oneof![1 => Just(0i64), 4 => 0i64..86400], prop_oneof![1 => Just(0i64), 3 => 0i64..1_000_000_000], prop_oneof![8 => Just(0i64), 1 => 1i64..200_000_000_000_000, 1 => -200_000_000_000_000i64..0]).prop_map(|(u, y, mo, d, sod, sub_ns, edge)| RtCase { u, y, mo, d, sod, sub_ns, edge })
 }
 
 fn rt_unit<U: TimeUnitTrait>(c: &RtCase, ns_per: i64, obs: &mut Obs) -> CheckResult
@@ -188,7 +188,7 @@ where
     DateTime<U>: TryInto<chrono::DateTime<chrono::Utc>> + From<chrono::DateTime<chrono::Utc>>,
 {
     // the nanosecond unit only spans 1678..2261
-    let y = if ns_per == 1 { 1678 + (c.y - 1) % (2261 - 1678 + 1) } else { c.y };
+    let y = if ns_per == 1 { 1678 + (c.y - 1).rem_euclid(2261 - 1678 + 1) } else { c.y };
     let d = c.d.min(civil::days_in_month(y, c.mo));
     let secs = civil::days_from_civil(y, c.mo, d) * 86400 + c.sod;
     let mut ts = (secs as i128 * 1_000_000_000 + c.sub_ns as i128).div_euclid(ns_per as i128) as i64;
@@ -215,6 +215,12 @@ where
             Ok(back) => return fail("roundtrip:default:value", format!("{} of strftime({}) = {:?} gives {} ({:?})", how, ts, text, back.0, U::unit())),
             Err(e) => return fail("roundtrip:default:rejected", format!("{} rejects its own strftime output {:?}: {}", how, text, e)),
         }
+    }
+    if !(1..=9999).contains(&y) {
+        // years that need a sign / a fifth digit: only the default text form is asked to round-trip
+        obs.set_nontrivial(true);
+        obs.class("year_outside_1..=9999");
+        return Ok(());
     }
     // listed formats that carry the full instant on whole seconds / the date on midnights
     let whole = ts - (ts as i128 * ns_per as i128).rem_euclid(1_000_000_000) as i64 / ns_per;
